@@ -1144,33 +1144,50 @@ def hash_args_eval(
     # Filter out config args and JobInfo from argument hashing.
     config_args: list = task.get_task_option("config_args", [])
 
-    def keep_arg(param_name: str, value: Any) -> bool:
+    def keep_arg(param_name: typing.Optional[str], value: Any) -> bool:
         return param_name not in config_args and not isinstance(value, JobInfo)
 
-    # Determine the variadic parameter if it exists.
+    # Determine which parameter each argument binds to: positional arguments bind to the
+    # positional parameters in order, additional ones to the variadic parameter; a keyword that
+    # names no parameter of its own binds to the variadic keyword parameter.
+    pos_param_names: list[str] = []
+    kw_param_names: list[str] = []
     var_param_name: typing.Optional[str] = None
+    var_kw_param_name: typing.Optional[str] = None
     for param in sig.parameters.values():
         if param.kind == inspect.Parameter.VAR_POSITIONAL:
             var_param_name = param.name
-            break
+        elif param.kind == inspect.Parameter.VAR_KEYWORD:
+            var_kw_param_name = param.name
+        else:
+            if param.kind != inspect.Parameter.KEYWORD_ONLY:
+                pos_param_names.append(param.name)
+            if param.kind != inspect.Parameter.POSITIONAL_ONLY:
+                kw_param_names.append(param.name)
+
+    def hashed_arg(value: Any) -> Any:
+        # A JobInfo keeps its position but contributes nothing else to the hash.
+        return JobInfo() if isinstance(value, JobInfo) else value
 
     # Filter args to remove config_args.
     args2 = [
-        arg_value
-        for arg_name, arg_value in zip(sig.parameters, args)
-        if keep_arg(arg_name, arg_value)
+        hashed_arg(arg_value)
+        for arg_name, arg_value in zip(pos_param_names, args)
+        if arg_name not in config_args
     ]
 
-    # Additional arguments are assumed to be variadic arguments.
+    # Additional arguments are variadic arguments.
     args2.extend(
-        arg_value for arg_value in args[len(sig.parameters) :] if var_param_name not in config_args
+        hashed_arg(arg_value)
+        for arg_value in args[len(pos_param_names) :]
+        if var_param_name not in config_args
     )
 
     # Filter kwargs.
     kwargs2 = {
         arg_name: arg_value
         for arg_name, arg_value in kwargs.items()
-        if keep_arg(arg_name, arg_value)
+        if keep_arg(arg_name if arg_name in kw_param_names else var_kw_param_name, arg_value)
     }
 
     return hash_eval(type_registry, task.hash, args2, kwargs2)
